@@ -636,6 +636,11 @@ class Executor:
                 if len(outs) == 1 and outs[0][0] is st and outs[0][1] is not None:
                     return outs[0][1]
         if re.fullmatch(r'[\w:]+', c):
+            cb = [f for k, f in self.prog.const_bodies.items() if k == c or k.endswith('::' + c) or c.endswith('::' + k)]
+            if len(cb) == 1:
+                outs = list(self.call_fn(st, cb[0], []))
+                if len(outs) == 1 and outs[0][0] is st and outs[0][1] is not None:
+                    return outs[0][1]
             cv = [v for k, v in self.prog.const_values.items() if k == c or k.endswith('::' + c) or c.endswith('::' + k)]
             if len(cv) == 1 and cv[0] != c:
                 return self.const(st, cv[0], fr)
